@@ -460,16 +460,21 @@ FMT_IN = {"fasta": [], "phylip": ["-p"], "nexus": ["-x"], "clustal": ["-u"]}
 def run_det_case(c, timeout_s=120.0):
     """ops `det*` (property C11), run on the goalign binary built from the working tree.
       det      <stdin> <threads,threads,...> <files> <argv...>   every run (`-t n` appended) gives the same bytes
+      detslow  the same with 1.1 s between the runs (outputs that embed a time stamp of 1 s resolution: gzip headers, archives)
       detchain <stdin> <fmt,fmt,...,fmt>                          reformat chain back to the first format
       detboot  <stdin> <model> <n> <frac num/den> <seed> <threads> seqboot + compute distance = distboot
       detmulti <aln;;aln;;...> <files> <argv...>                  multi-alignment input = the alignments one by one
     Result: `same rc=<rc> out=<bytes> files=<k>` or `differ <where> ...`."""
     try:
         stdin = b"" if c.args[0] == "_" else _unesc(c.args[0])
-        if c.op == "det":
+        if c.op in ("det", "detslow"):
             threads = [int(x) for x in str(c.args[1]).split(",")]
             files = _files(c.args[2])
-            runs = [exec_goalign([str(a) for a in c.args[3:]] + ["-t", str(t)], stdin, files, timeout_s) for t in threads]
+            runs = []
+            for k, t in enumerate(threads):
+                if k and c.op == "detslow":
+                    time.sleep(1.1)      # the next run starts in another wall-clock second (time stamps have 1 s resolution)
+                runs.append(exec_goalign([str(a) for a in c.args[3:]] + ["-t", str(t)], stdin, files, timeout_s))
             for t, r in zip(threads[1:], runs[1:]):
                 if r != runs[0]:
                     c.impl = "differ %s threads=%d:%s threads=%d:%s" % (_where(runs[0], r), threads[0], _digest(runs[0]), t, _digest(r))
